@@ -399,3 +399,110 @@ def judge_conv(case, impl, model):
             viol.append(('exact', 'list text %r: config gives %s (comma split expected), command line %s (appended as written expected)'
                          % (case['text'], impl['cfg'], impl['cmd'])))
     return viol, div
+
+
+# ------------------------------------------------------------------------------------------------ (b) COMMAND plugins
+
+def core_commands():
+    from doit.doit_cmd import DoitMain
+    return {c.get_name(): c.__name__ for c in DoitMain.DOIT_CMDS}
+
+
+def _cmd_classes():
+    import doit
+    if _ready.get('cmdkey') == id(doit):
+        return
+    from doit.cmd_base import Command
+    g = globals()
+    for l in LAYER3:
+        def execute(self, opt_values, pos_args):
+            return 0
+        g['C_' + l] = type('C_' + l, (Command,), {'doc_purpose': 'probe', 'doc_usage': '', 'execute': execute})
+    _ready['cmdkey'] = id(doit)
+
+
+def gen_cmd_case(rng, core_cmds):
+    pool = ['pa', 'list', 'run']            # two of them named like core commands
+    layers = {}
+    for l in LAYER3:
+        layers[l] = ([[n, 'optcfglib:C_%s' % l] for n in pool if rng.random() < 0.4] if rng.random() < 0.75 else None)
+    case = dict(BLANK, path='plugcmd', layers=layers, core=sorted(core_cmds))
+    present = [l for l in LAYER3 if layers[l] is not None]
+    if present and rng.random() < 0.3:
+        l = rng.choice(present)
+        n = rng.choice(pool + ['px', 'px'])
+        bad = rng.choice(['nomod_xyz:X', 'optcfglib:NoSuchAttr', 'optcfglib', 'optcfglib:C_api:x'])
+        layers[l] = [e for e in layers[l] if e[0] != n] + [[n, bad]]
+        case['broken'] = [l, n, bad]
+    first = rng.choice(['pa', 'pa', 'list', 'run', 'px', 't', 't', None, 'info'])
+    case['argv'] = ([] if first is None else [first]) + (['t'] if rng.random() < 0.5 and first != 't' else [])
+    return case
+
+
+def cmd_request(case):
+    return {'model': 'opt', 'op': 'plugcmd', 'core': case['core'], 'args': case['argv'],
+            'layers': [case['layers'][l] or [] for l in LAYER3], 'mods': [['optcfglib', ['C_' + l for l in LAYER3]]]}
+
+
+def impl_cmd(case, workdir):
+    _cmd_classes()
+    from doit.doit_cmd import DoitMain
+    from doit.cmd_base import ModuleTaskLoader, Command
+    lay = case['layers']
+    extra = {}
+    old = os.getcwd()
+    os.chdir(workdir)
+    err = io.StringIO()
+    seen = []
+    real_pe = Command.parse_execute
+
+    def spy(self, in_args):
+        seen.append([type(self).__name__, self.name, list(in_args)])
+        return real_pe(self, in_args)
+    try:
+        for f in os.listdir(workdir):
+            os.remove(os.path.join(workdir, f))
+        if lay['api'] is not None:
+            extra['COMMAND'] = {n: loc for n, loc in lay['api']}
+        if lay['toml'] is not None:
+            with open('pyproject.toml', 'w') as f:
+                f.write('[tool.doit.plugins.command]\n' + ''.join('%s = "%s"\n' % (n, loc) for n, loc in lay['toml']))
+        if lay['cfg'] is not None:
+            with open('doit.cfg', 'w') as f:
+                f.write('[COMMAND]\n' + ''.join('%s = %s\n' % (n, loc) for n, loc in lay['cfg']))
+        Command.parse_execute = spy
+        with optlib.environ([]), contextlib.redirect_stderr(err), contextlib.redirect_stdout(io.StringIO()):
+            try:
+                code = DoitMain(task_loader=ModuleTaskLoader({'task_t': _task_t, 'task_px': _task_t}),
+                                extra_config=extra or None).run(list(case['argv']))
+            except BaseException as ex:  # noqa
+                return {'pick': 'escapes', 'exc': type(ex).__name__, 'res': {'err': 'crash'}}
+    finally:
+        Command.parse_execute = real_pe
+        os.chdir(old)
+    text = err.getvalue()
+    if seen:
+        return {'pick': 'cls', 'cls': seen[0][0], 'cmd': seen[0][1], 'rest': seen[0][2], 'exit': code,
+                'res': {'ok': {'vals': [], 'nd': None, 'pos': []}}}
+    if code == 3 and 'Traceback' in text:
+        return {'pick': 'traceback3', 'exit': 3, 'exc': text.strip().split('\n')[-1][:80], 'res': {'err': 'crash'}}
+    return {'pick': 'other', 'exit': code, 'text': text[-200:], 'res': {'err': 'crash'}}
+
+
+def judge_cmd(case, impl, model):
+    viol, div = [], []
+    want_cls = _cls_name(case, model, core_commands())
+    if impl.get('pick') != model.get('pick') or (model.get('pick') == 'cls' and (
+            impl.get('cls') != want_cls or impl.get('rest') != model.get('rest') or
+            ((model.get('cls') or ['-'])[0] == 'core' and impl.get('cmd') != model.get('cmd')))):     # a plugin class has a name of its own
+        div.append('M4/plugcmd: `doit %s` with COMMAND plugin layers %s: doit %s, the model %s %s %s %s'
+                   % (' '.join(case['argv']), case['layers'], {k: impl.get(k) for k in ('pick', 'cls', 'cmd', 'rest', 'exc')},
+                      model.get('pick'), want_cls, model.get('cmd'), model.get('rest')))
+    if not case.get('broken') and case['argv']:
+        # (P) the command named first is the one executed, the plugin of the last layer that defines the name
+        a = case['argv'][0]
+        defined = [l for l in reversed(LAYER3) if case['layers'][l] and a in [n for n, _ in case['layers'][l]]]
+        if defined and (impl.get('pick') != 'cls' or impl.get('cls') != 'C_' + defined[0]):
+            viol.append(('precedence', 'command %r is defined as a plugin in %s (doit.cfg > pyproject.toml > extra_config): '
+                         'class C_%s expected, doit: %s' % (a, defined, defined[0], {k: impl.get(k) for k in ('pick', 'cls')})))
+    return viol, div
